@@ -268,7 +268,7 @@ package storagewrappers
 //@   property C09
 //@   option nosafety
 //@   option defer_neutral
-//@   loop 0 invariant added == $idx + 1
+//@   loop 0 invariant added == $idx + 1 && $idx < old(len(deref(c).tuples))
 //@   monitor drain
 //@     ghost added int = 0
 //@     ghost prefixDone = false
@@ -281,6 +281,8 @@ package storagewrappers
 //@     after call storage.Iterator.Head | storage.TupleIterator.Head returning x, e : lastDone = errIs(e, storage.ErrIteratorDone)
 //@     before call (*storagewrappers.cachedIterator).flush : assert freshChecked && notInvalid && lastDone
 //@     before call (*singleflight.Group).Do args _, k, f : assert freshChecked && notInvalid && closureOf(f, "Stop$1$1")
+//@     before call (*singleflight.Group).Do args _ : assert added == old(len(deref(c).tuples))
+//@     before call (*storagewrappers.cachedIterator).flush args _ : assert added == old(len(deref(c).tuples))
 
 // the drain loop proper: flush only after the iterator reported done
 //@ func (*cachedIterator).Stop$1$1() (v, err)
@@ -322,3 +324,21 @@ package storagewrappers
 //@   ensures @object res != nil && res.Key != nil && res.Key.Object == tuple.BuildObject(old(c.objectType != "" ? c.objectType : t.ObjectType), old(c.objectID != "" ? c.objectID : t.ObjectID))
 //@   ensures @relation res != nil && res.Key != nil && res.Key.Relation == old(c.relation != "" ? c.relation : t.Relation)
 //@   ensures @user res != nil && res.Key != nil && res.Key.User == tuple.FromUserParts(old(c.userType != "" ? c.userType : t.UserObjectType), old(t.UserObjectID), old(t.UserRelation))
+
+// ------------------------------------------------------------------ C19: no-panic sweep (thin, safety-only contracts)
+// every index and slice expression of these functions is in range for ALL inputs, with no precondition (generated by
+// bin/sweepgen, kept because every obligation discharges; callees without contract are treated as arbitrary)
+//@ func (*CachingIterator).flush(recv)
+//@   property C19
+//@   option nosafety
+//@   option safety slice,index
+
+//@ func NewCombinedTupleReader(a0, a1) (r0)
+//@   property C19
+//@   option nosafety
+//@   option safety slice,index
+
+//@ func extractObjectID(a0) (r0)
+//@   property C19
+//@   option nosafety
+//@   option safety slice,index
